@@ -299,6 +299,9 @@ func startFixture(t *testing.T) {
 		// requests. That is outside C23; the lockout is switched off (documented
 		// value 0) so that both client-authentication styles can be driven.
 		"ego.server.auth.maxattempts": "0",
+		// codes live 5 minutes by default; a stalled process must not be able
+		// to turn "expired" into "refused"
+		"ego.server.oauth.as.code.expiration": "24h",
 	}})
 	if err != nil {
 		t.Fatalf("srvfix: %v", err)
